@@ -74,16 +74,83 @@ def severity_members(repo: Repo, rep: Report) -> List[Record]:
     return members
 
 
-def check_order(repo: Repo, rep: Report):
-    c = repo.cls(SEV)
-    members = severity_members(repo, rep)
+class SevDomain:
+    """The Severity members and operators as read from the enum body; comparisons between members
+    are evaluated by interpreting the operator bodies (pure expression subset)."""
+
+    def __init__(self, repo: Repo, rep: Report):
+        self.c = repo.cls(SEV)
+        self.members = severity_members(repo, rep)
+        self.by_name = {m.fields["name"]: m for m in self.members}
+        self.ns = {"__namespace__": True, **self.by_name}
+        self.total_ordering = any((dotted(d) or "").endswith("total_ordering") for d in self.c.node.decorator_list)
+
+    def method(self, name: str) -> Optional[FuncInfo]:
+        return self.c.method(name)
+
+    def call_op(self, dunder: str, a: Record, b, ev: Evaluator):
+        if ev.depth > 12:
+            raise Unsupported("operator recursion too deep (mutually recursive definitions?)")
+        f = self.method(dunder)
+        if f is None:
+            if dunder == "__ne__":
+                r = self.call_op("__eq__", a, b, ev)
+                return r if r is NotImplemented else not ev.truth(r)
+            if self.total_ordering and dunder in ("__le__", "__gt__", "__ge__", "__lt__"):
+                if self.method("__lt__") is None:
+                    raise Unsupported("total_ordering not rooted at __lt__")
+                lt = ev.truth(self.call_op("__lt__", a, b, ev))
+                eq = ev.truth(self.call_op("__eq__", a, b, ev))
+                return {"__le__": lt or eq, "__gt__": not lt and not eq, "__ge__": not lt}[dunder]
+            if dunder == "__eq__":
+                return a is b  # Enum identity
+            return NotImplemented
+        params = [x.arg for x in f.node.args.args]
+        if len(params) != 2:
+            raise Unsupported(f"{dunder} has unexpected signature")
+        sub = Evaluator({params[0]: a, params[1]: b, "Severity": self.ns}, record_compare=self.rec_cmp, isinstance_hook=self.isinst)
+        sub.depth = ev.depth + 1
+        return sub.run_body(f.node.body)
+
+    def rec_cmp(self, opname: str, l, r, ev: Evaluator):
+        d = DUNDER.get(opname)
+        if d is None:
+            raise Unsupported(f"record comparison {opname}")
+        if isinstance(l, Record) and l.cls == "Severity":
+            res = self.call_op(d, l, r, ev)
+            if res is not NotImplemented:
+                return res
+        if isinstance(r, Record) and r.cls == "Severity":
+            res = self.call_op(REFLECT[d], r, l, ev)
+            if res is not NotImplemented:
+                return res
+        if d == "__eq__":
+            return l is r
+        if d == "__ne__":
+            return l is not r
+        raise Unsupported(f"no usable {d} between {l!r} and {r!r} (TypeError at run time)")
+
+    @staticmethod
+    def isinst(v, cls: str):
+        if cls in ("Severity", "self.__class__", "type(self)"):
+            return isinstance(v, Record) and v.cls == "Severity"
+        return None
+
+    def evaluator(self, env: dict, call_hook=None) -> Evaluator:
+        e = Evaluator(dict(env, Severity=self.ns), record_compare=self.rec_cmp, isinstance_hook=self.isinst, call_hook=call_hook)
+        return e
+
+
+def check_order(repo: Repo, rep: Report) -> "SevDomain":
+    dom = SevDomain(repo, rep)
+    c = dom.c
+    members = dom.members
     names = [m.fields["name"] for m in members]
     file = c.module.relpath
     if sorted(names) != sorted(DOCUMENTED_ORDER):
         rep.bad("C10.order", SEV, "members", f"Severity members {names} differ from the documented six {DOCUMENTED_ORDER}", file, c.node.lineno)
-        return
-    by_name = {m.fields["name"]: m for m in members}
-    # rank = position in the documented order; the values must sort the same way
+        return dom
+    by_name = dom.by_name
     vals = [by_name[n].fields["value"] for n in DOCUMENTED_ORDER]
     try:
         increasing = all(vals[i] < vals[i + 1] for i in range(5))
@@ -95,92 +162,26 @@ def check_order(repo: Repo, rep: Report):
     else:
         rep.bad("C10.order", SEV, "ranks", f"Severity values {vals} are not strictly increasing (with distinct leading ranks) in the documented order {DOCUMENTED_ORDER}", file, c.node.lineno)
     rank = {n: i for i, n in enumerate(DOCUMENTED_ORDER)}
-    total_ordering = any((dotted(d) or "").endswith("total_ordering") for d in c.node.decorator_list)
-
-    def method(name: str) -> Optional[FuncInfo]:
-        return c.method(name)
-
-    ns = {"__namespace__": True, **by_name}
-
-    def call_op(dunder: str, a: Record, b, ev: Evaluator):
-        if ev.depth > 12:
-            raise Unsupported("operator recursion too deep (mutually recursive definitions?)")
-        f = method(dunder)
-        if f is None:
-            if dunder == "__ne__":
-                r = call_op("__eq__", a, b, ev)
-                return r if r is NotImplemented else not ev.truth(r)
-            if total_ordering and dunder in ("__le__", "__gt__", "__ge__", "__lt__"):
-                base = next((d for d in ("__lt__", "__le__", "__gt__", "__ge__") if method(d)), None)
-                if base is None:
-                    raise Unsupported("total_ordering without a root operator")
-                lt = ev.truth(call_op("__lt__", a, b, ev)) if base == "__lt__" else None
-                if base != "__lt__":
-                    raise Unsupported(f"total_ordering rooted at {base}")
-                eq = ev.truth(call_op("__eq__", a, b, ev))
-                return {"__le__": lt or eq, "__gt__": not lt and not eq, "__ge__": not lt}[dunder]
-            if dunder == "__eq__":
-                return a is b  # Enum identity
-            return NotImplemented
-        params = [x.arg for x in f.node.args.args]
-        if len(params) != 2:
-            raise Unsupported(f"{dunder} has unexpected signature")
-        sub = Evaluator({params[0]: a, params[1]: b, "Severity": ns}, record_compare=rec_cmp, isinstance_hook=isinst)
-        sub.depth = ev.depth + 1
-        return sub.run_body(f.node.body)
-
-    def rec_cmp(opname: str, l, r, ev: Evaluator):
-        d = DUNDER.get(opname)
-        if d is None:
-            raise Unsupported(f"record comparison {opname}")
-        if isinstance(l, Record):
-            res = call_op(d, l, r, ev)
-            if res is not NotImplemented:
-                return res
-        if isinstance(r, Record):
-            res = call_op(REFLECT[d], r, l, ev)
-            if res is not NotImplemented:
-                return res
-        if d == "__eq__":
-            return l is r
-        if d == "__ne__":
-            return l is not r
-        raise Unsupported(f"no usable {d} between {l!r} and {r!r} (TypeError at run time)")
-
-    def isinst(v, cls: str):
-        if cls in ("Severity", "self.__class__", "type(self)"):
-            return isinstance(v, Record) and v.cls == "Severity"
-        return None
-
-    top = Evaluator({}, record_compare=rec_cmp, isinstance_hook=isinst)
+    top = dom.evaluator({})
     for d in ("__lt__", "__le__", "__gt__", "__ge__", "__eq__", "__ne__"):
         wrong: List[str] = []
-        line = (method(d).line if method(d) else c.node.lineno)
+        line = dom.method(d).line if dom.method(d) else c.node.lineno
         try:
             for a in members:
                 for b in members:
-                    got = call_op(d, a, b, top)
+                    got = dom.call_op(d, a, b, top)
                     if got is NotImplemented:
-                        # fall back like Python does
-                        got = call_op(REFLECT[d], b, a, top)
+                        got = dom.call_op(REFLECT[d], b, a, top)
                     want = MEANING[d](rank[a.fields["name"]], rank[b.fields["name"]])
                     if got is NotImplemented or bool(top.truth(got)) != want:
                         wrong.append(f"{a.fields['name']} {d} {b.fields['name']} -> {got!r}, documented ranking says {want}")
         except Unsupported as e:
             raise AnalysisError(f"Severity.{d}: cannot reduce the operator body over the member domain: {e}")
         if wrong:
-            rep.bad(
-                "C10.order",
-                f"{SEV}.{d}",
-                "disagrees-with-ranking",
-                f"{len(wrong)} of 36 ordered pairs wrong, e.g. {wrong[0]}",
-                file,
-                line,
-                what=f"{d}: {len(wrong)}/36 pairs wrong",
-            )
+            rep.bad("C10.order", f"{SEV}.{d}", "disagrees-with-ranking", f"{len(wrong)} of 36 ordered pairs wrong, e.g. {wrong[0]}", file, line, what=f"{d}: {len(wrong)}/36 pairs wrong")
         else:
-            rep.ok("C10.order", f"{SEV}.{d}", "36/36 ordered pairs agree with the documented ranking" + ("" if method(d) else " (inherited/derived)"), f"{file}:{line}")
-    # hashing/other special cases are not part of the property
+            rep.ok("C10.order", f"{SEV}.{d}", "36/36 ordered pairs agree with the documented ranking" + ("" if dom.method(d) else " (inherited/derived)"), f"{file}:{line}")
+    return dom
 
 
 # --------------------------------------------------------------------------- C10.aggregate
@@ -394,7 +395,7 @@ def cli_arms(main: FuncInfo) -> Dict[str, ast.If]:
     raise AnalysisError("cli.main: `if args.inject is not None ... elif args.check_safety ... else` chain not recognised")
 
 
-def check_faces(repo: Repo, rep: Report):
+def check_faces(repo: Repo, rep: Report, dom: "SevDomain"):
     # --- library verdict
     cs = repo.func("fickling.analysis.check_safety")
     file = cs.file
@@ -506,99 +507,87 @@ def check_faces(repo: Repo, rep: Report):
     else:
         rep.bad("C10.faces", ld.qualname, "exception-info", f"UnsafeFileError is not raised with `{res}.to_dict()` of the analysed result", ld.file, ld.line)
 
-    # --- CLI exit status
+    # --- CLI exit status: the --check-safety arm is interpreted over the finite domain of verdict
+    # sequences (all 6 and 36 severity assignments for 1 and 2 stacked pickles, {safe, unsafe}^3 for 3),
+    # with check_safety() abstracted to "returns an object whose .severity is that pickle's severity".
     main = repo.func("fickling.cli.main")
     arms = cli_arms(main)
     arm = arms["check_safety"]
     cfile = main.file
-    # name bound from StackedPickle.load
     stacked = None
     for n in body_walk(main.node):
         if isinstance(n, ast.Assign) and isinstance(n.value, ast.Call) and (dotted(n.value.func) or "").endswith("StackedPickle.load") and isinstance(n.targets[0], ast.Name):
             stacked = n.targets[0].id
     if stacked is None:
         raise AnalysisError("cli.main: binding from StackedPickle.load not found")
-    loops = [n for n in arm.body if isinstance(n, ast.For)]
-    if len(loops) != 1:
-        raise AnalysisError("cli.main --check-safety arm: expected exactly one loop")
-    lp = loops[0]
-    if not (isinstance(lp.iter, ast.Name) and lp.iter.id == stacked):
-        rep.bad("C10.faces", main.qualname, "cli-partial-loop", f"--check-safety iterates `{src(lp.iter)}`, not the whole stacked pickle `{stacked}`", cfile, lp.lineno)
-    elif any(isinstance(x, (ast.Break, ast.Continue, ast.Return)) for st in lp.body for x in walk_no_nested(st)):
-        esc = next(x for st in lp.body for x in walk_no_nested(st) if isinstance(x, (ast.Break, ast.Continue, ast.Return)))
-        rep.bad("C10.faces", main.qualname, f"cli-loop-escape:{type(esc).__name__}", f"--check-safety loop leaves early with `{type(esc).__name__.lower()}`: later stacked pickles are not judged", cfile, esc.lineno)
+    import itertools
+
+    members = dom.members
+    safe = dom.by_name["LIKELY_SAFE"]
+    reps3 = [safe, dom.by_name["LIKELY_UNSAFE"]]
+    cases = [(m,) for m in members] + list(itertools.product(members, repeat=2)) + list(itertools.product(reps3, repeat=3))
+    module_consts = {k: ast.literal_eval(v[0]) for k, v in main.module.assigns.items() if len(v) == 1 and isinstance(v[0], ast.Constant)}
+    wrong = []
+    json_missing = []
+    not_all_checked = []
+    evaluations = 0
+    for case in cases:
+        for print_results in (False, True):
+            for json_output in (None, "out.json"):
+                pickles = [Record("Pickled", {"name": f"p{i}", "sev": sv, "idx": i}) for i, sv in enumerate(case)]
+                checked = []
+
+                def hook(name, args, kw, ev, _checked=checked):
+                    last = name.split(".")[-1]
+                    if last == "check_safety":
+                        subj = args[0] if args else kw.get("pickled")
+                        if not (isinstance(subj, Record) and subj.cls == "Pickled"):
+                            raise Unsupported("check_safety called on something that is not a stacked pickle")
+                        jp = kw.get("json_output_path", args[3] if len(args) > 3 else None)
+                        _checked.append((subj.fields["idx"], jp))
+                        return Record("AnalysisResults", {"severity": subj.fields["sev"], "results": ()})
+                    if last in ("print", "write", "to_string", "to_dict", "flush", "dump", "dumps", "isatty"):
+                        return None
+                    if last == "len" and args and isinstance(args[0], list):
+                        return len(args[0])
+                    from ..minieval import _MISSING
+                    return _MISSING
+
+                env = {
+                    stacked: pickles,
+                    "args": Record("args", {"print_results": print_results, "json_output": json_output, "check_safety": True, "inject": None, "trace": False, "PICKLE_FILE": "-"}),
+                    "sys": Record("sys", {"stderr": Record("file", {}), "stdout": Record("file", {})}),
+                    **module_consts,
+                }
+                ev = dom.evaluator(env, call_hook=hook)
+                try:
+                    code = ev.run_body(arm.body)
+                except Unsupported as e:
+                    raise AnalysisError(f"cli.main --check-safety arm: cannot interpret over the verdict domain: {e}")
+                evaluations += 1
+                all_safe = all(sv is safe for sv in case)
+                zero = code is None or code is False or (isinstance(code, int) and not isinstance(code, bool) and code == 0)
+                if zero != all_safe:
+                    wrong.append((tuple(sv.fields["name"] for sv in case), code))
+                if sorted(i for i, _ in checked) != list(range(len(case))):
+                    not_all_checked.append((tuple(sv.fields["name"] for sv in case), [i for i, _ in checked]))
+                if any(not jp for _, jp in checked):
+                    json_missing.append(tuple(sv.fields["name"] for sv in case))
+    rep.extra["cli_exit_evaluations"] = evaluations
+    if wrong:
+        ex = wrong[0]
+        rep.bad("C10.faces", main.qualname, "cli-exit-code", f"--check-safety exit status is not `0 iff every stacked pickle is LIKELY_SAFE`: {len(wrong)} of {evaluations} verdict sequences wrong, e.g. severities {list(ex[0])} -> exit {ex[1]!r}", cfile, arm.lineno, what=f"exit status wrong on {len(wrong)}/{evaluations} verdict sequences")
     else:
-        rep.ok("C10.faces", main.qualname, f"--check-safety loops over every element of `{stacked}` with no early exit", f"{cfile}:{lp.lineno}")
-    # flag variable
-    cs_names = set()
-    for st in lp.body:
-        for n in walk_no_nested(st):
-            if isinstance(n, ast.Assign) and _check_safety_call(n.value) and isinstance(n.targets[0], ast.Name):
-                cs_names.add(n.targets[0].id)
-                call = n.value
-                # each pickle is analysed: first argument is the loop variable
-                if not (call.args and isinstance(call.args[0], ast.Name) and isinstance(lp.target, ast.Name) and call.args[0].id == lp.target.id):
-                    rep.bad("C10.faces", main.qualname, "cli-wrong-subject", f"check_safety is called on `{src(call.args[0]) if call.args else '?'}`, not on the loop's pickle", cfile, n.lineno)
-                jp = kwarg(call, "json_output_path", 3)
-                if jp is None or (isinstance(jp, ast.Constant) and jp.value is None):
-                    rep.bad("C10.faces", main.qualname, "cli-json-missing", "check_safety is called without a JSON output path in the CLI", cfile, n.lineno)
-                else:
-                    rep.ok("C10.faces", main.qualname, f"JSON path `{src(jp)}` passed for every pickle", f"{cfile}:{n.lineno}")
-    if not cs_names:
-        raise AnalysisError("cli.main --check-safety arm: no `x = check_safety(...)` in the loop")
-    # it must be a direct statement of the loop body (unconditional per iteration)
-    direct = [st for st in lp.body if isinstance(st, ast.Assign) and _check_safety_call(st.value)]
-    if not direct:
-        rep.bad("C10.faces", main.qualname, "cli-conditional-check", "check_safety is not called unconditionally for every stacked pickle", cfile, lp.lineno)
-    flag_tests = []
-    for st in lp.body:
-        if isinstance(st, ast.If):
-            c = cmp_oriented(st.test, lambda e: _sev_of(e) is not None and dotted(_sev_of(e)) in cs_names)
-            if c:
-                flag_tests.append((st, c))
-    rets = [n for n in arm.body if isinstance(n, ast.Return)]
-    if len(flag_tests) != 1 or len(rets) != 1:
-        raise AnalysisError("cli.main --check-safety arm: flag test / return not recognised")
-    st, (l, op, r) = flag_tests[0]
-    unsafe_branch = None
-    if dotted(r) == "Severity.LIKELY_SAFE":
-        if op in (">", "!=", "is not"):
-            unsafe_branch = st.body
-        elif op in ("==", "<=", "is"):
-            unsafe_branch = st.orelse
-    if unsafe_branch is None:
-        rep.bad("C10.faces", main.qualname, f"cli-predicate:{op}:{src(r)}", f"--check-safety tests `{src(st.test)}`; the exit status must be a function of `severity > LIKELY_SAFE`", cfile, st.lineno)
-        return
-    flags = [n for n in unsafe_branch if isinstance(n, ast.Assign) and isinstance(n.value, ast.Constant) and isinstance(n.value.value, bool) and isinstance(n.targets[0], ast.Name)]
-    if len(flags) != 1:
-        rep.bad("C10.faces", main.qualname, "cli-flag-not-set", f"the `{src(st.test)}` branch does not unconditionally record the unsafe verdict in a flag", cfile, st.lineno)
-        return
-    flag, unsafe_val = flags[0].targets[0].id, flags[0].value.value
-    # initial value and no other assignment that could undo it
-    assigns = [n for n in ast.walk(arm) if isinstance(n, ast.Assign) and any(isinstance(t, ast.Name) and t.id == flag for t in n.targets)]
-    inits = [a for a in assigns if a in arm.body]
-    others = [a for a in assigns if a is not flags[0] and a not in inits]
-    if len(inits) != 1 or not isinstance(inits[0].value, ast.Constant) or inits[0].value.value is not (not unsafe_val) or others or arm.body.index(inits[0]) > arm.body.index(lp):
-        rep.bad("C10.faces", main.qualname, "cli-flag-discipline", f"flag `{flag}` is not initialised to {not unsafe_val} before the loop and set to {unsafe_val} only on an unsafe verdict", cfile, arm.lineno)
-        return
-    rep.ok("C10.faces", main.qualname, f"`{flag}` := {unsafe_val} iff some pickle has severity > LIKELY_SAFE (test `{src(st.test)}`)", f"{cfile}:{st.lineno}")
-    # fold the return expression over the two-point domain
-    rexp = rets[0].value
-    try:
-        safe_code = Evaluator({flag: (not unsafe_val)}).ev(rexp)
-        unsafe_code = Evaluator({flag: unsafe_val}).ev(rexp)
-    except Unsupported as e:
-        raise AnalysisError(f"cli.main: cannot fold exit-status expression `{src(rexp)}`: {e}")
-    def nonzero(v):
-        return v is True or (isinstance(v, int) and not isinstance(v, bool) and v != 0)
-    def zero(v):
-        return (isinstance(v, int) and not isinstance(v, bool) and v == 0) or v is False or v is None
-    if zero(safe_code) and nonzero(unsafe_code):
-        rep.ok("C10.faces", main.qualname, f"exit status `{src(rexp)}`: all-safe -> {safe_code!r}, otherwise -> {unsafe_code!r}", f"{cfile}:{rets[0].lineno}")
+        rep.ok("C10.faces", main.qualname, f"--check-safety exit status == 0 iff all stacked pickles LIKELY_SAFE on all {evaluations} verdict sequences x option settings", f"{cfile}:{arm.lineno}")
+    if not_all_checked:
+        ex = not_all_checked[0]
+        rep.bad("C10.faces", main.qualname, "cli-not-all-checked", f"check_safety is not called exactly once per stacked pickle: for severities {list(ex[0])} it ran on indices {ex[1]}", cfile, arm.lineno)
     else:
-        rep.bad("C10.faces", main.qualname, "cli-exit-code", f"exit status `{src(rexp)}` maps all-safe -> {safe_code!r} and some-unsafe -> {unsafe_code!r}; required 0 and non-zero", cfile, rets[0].lineno)
-    if arm.body.index(rets[0]) < arm.body.index(lp):
-        rep.bad("C10.faces", main.qualname, "cli-return-before-loop", "the exit status is returned before the stacked pickles are examined", cfile, rets[0].lineno)
+        rep.ok("C10.faces", main.qualname, "check_safety runs exactly once on every stacked pickle", f"{cfile}:{arm.lineno}")
+    if json_missing:
+        rep.bad("C10.faces", main.qualname, "cli-json-missing", f"check_safety is called without a JSON output path for some pickle (e.g. severities {list(json_missing[0])})", cfile, arm.lineno)
+    else:
+        rep.ok("C10.faces", main.qualname, "a JSON report path is passed for every pickle", f"{cfile}:{arm.lineno}")
 
 
 def run(rep: Report, tier: str):
@@ -614,6 +603,6 @@ def run(rep: Report, tier: str):
     rep.rule("C10.faces", "each face reads <AnalysisResults>.severity with the required predicate", 9)
     rep.units = {"modules": ["fickling/analysis.py", "fickling/loader.py", "fickling/cli.py"]}
     rep.assume("comparisons are only ever between Severity members (isinstance(other, Severity) holds)")
-    check_order(repo, rep)
+    dom = check_order(repo, rep)
     check_aggregate(repo, rep)
-    check_faces(repo, rep)
+    check_faces(repo, rep, dom)
